@@ -159,16 +159,35 @@ def oracle_validate(p):
     x = np.asarray(p["x"])
     P = p["P"]
     out = []
+    entries = [("music", lambda **kw: sp.music(x, P, NFFT=32, **kw)), ("ev", lambda **kw: sp.ev(x, P, NFFT=32, **kw)),
+               ("eigen", lambda **kw: sp.eigen(x, P, NFFT=32, method="ev", **kw)),
+               ("pmusic", lambda **kw: sp.pmusic(x, P, NFFT=32, **kw).psd), ("pev", lambda **kw: sp.pev(x, P, NFFT=32, **kw).psd)]
+    # out-of-range values: a negative or too large dimension, both rules at once, a threshold below 1 (it keeps every singular
+    # value, i.e. the dimension P that an explicit NSIG=P rejects), an unknown criterion name
     for kw, should in [(dict(NSIG=2, threshold=3.0), "value"), (dict(NSIG=-1), "value"), (dict(NSIG=P), "value"),
                        (dict(NSIG=P + 2), "value"), (dict(NSIG=0, threshold=2.0), "value"), (dict(NSIG=3, threshold=0), "value"),
-                       (dict(NSIG=0, threshold=0.0), "value")]:
-        try:
-            sp.music(x, P, NFFT=32, **kw)
-            out.append("eigen accepted %s (P=%d)" % (kw, P))
-        except ValueError:
-            pass
-        except Exception as e:
-            out.append("eigen raised %r for %s instead of ValueError" % (e, kw))
+                       (dict(NSIG=0, threshold=0.0), "value"), (dict(threshold=0.5), "value"), (dict(threshold=-2.0), "value"),
+                       (dict(criteria="foo"), "value")]:
+        for name, call in entries:
+            try:
+                call(**kw)
+                out.append("%s accepted %s (P=%d)" % (name, kw, P))
+            except ValueError:
+                pass
+            except Exception as e:
+                out.append("%s raised %r for %s instead of ValueError" % (name, e, kw))
+            if out:
+                break
+    # every entry point applies the same rule
+    for kw in (dict(NSIG=2), dict(threshold=3.0), dict(criteria="mdl"), dict(threshold=1e9)):
+        ref = np.asarray(sp.eigen(x, P, NFFT=32, method="music", **kw)[0])
+        got = np.asarray(sp.music(x, P, NFFT=32, **kw)[0])
+        cls = sp.pmusic(x, P, NFFT=32, **kw)
+        cps = np.asarray(cls.psd)
+        if rel(got, ref) > 1e-12:
+            out.append("music(%s) differs from eigen(method='music', %s)" % (kw, kw))
+        if not np.all(np.isfinite(got)) or not np.all(got > 0):
+            out.append("music(%s) pseudo-spectrum is not finite and positive" % (kw,))
     try:
         sp.eigen(x, P, method="foo", NFFT=32)
         out.append("eigen accepted method='foo'")
@@ -199,7 +218,43 @@ def oracle_validate(p):
     return out
 
 
+# ---- argument validation and the threshold rule: implementation vs model ---------------------------------------------
+
+def impl_valid(p):
+    sp = _sp()
+    kw = {}
+    if p["nsig"] is not None:
+        kw["NSIG"] = p["nsig"]
+    if p["thr"] is not None:
+        kw["threshold"] = p["thr"]
+    sp.eigen(np.asarray(p["x"]), p["P"], method=p["method"], criteria=p["crit"], NFFT=32, **kw)
+    return []
+
+
+def model_valid(p):
+    args_ok = (p["method"] in ("music", "ev") and (p["thr"] is None or p["thr"] >= 1)
+               and (p["nsig"] is not None or p["thr"] is not None or p["crit"] in ("aic", "mdl")))
+    ns = p["nsig"]
+    head = [1 if args_ok else 0, 0 if ns is None else 1, 1 if (ns is not None and ns < 0) else 0, abs(ns) if ns is not None else 0,
+            0 if p["thr"] is None else 1, len(p["x"]), p["P"]]
+    return ("Q", proto.request("eigenvalidate", "Q", head, []))
+
+
+def impl_thr(p):
+    from spectrum.eigenfre import _get_signal_space
+    S = np.asarray(p["S"], dtype=float)
+    return [np.array([float(_get_signal_space(S, 20, threshold=p["thr"]))])]
+
+
+def model_thr(p):
+    return ("Q", proto.request("nsigthr", "Q", [], [np.asarray(p["S"], dtype=float), [p["thr"]]]))
+
+
 def _key(p):
+    if "S" in p:
+        return "thr|%s|%s" % (p["thr"], hash(np.asarray(p["S"]).tobytes()) & 0xFFFFFF)
+    if "crit" in p:
+        return "valid|%s|%s|%s|%s|%d|%d" % (p["method"], p["nsig"], p["thr"], p["crit"], len(p["x"]), p["P"])
     x = np.asarray(p["x"])
     return "%s|%d|%s|%s|%s|%s|%d" % (p.get("method"), len(x), p.get("P"), p.get("nsig", p.get("K")), p.get("nfft"),
                                    np.iscomplexobj(x), hash(x.tobytes()) & 0xFFFFFF)
@@ -221,7 +276,13 @@ KINDS = {
     "class": {"impl": impl_class, "model": model_class, "rtol": 1e-12, "atol": 0.0, "key": _key, "tags": _tags},
     "tones": {"oracle": oracle_tones, "key": _key, "tags": _tags},
     "validate": {"oracle": oracle_validate, "key": _key, "tags": lambda p: ["validate"]},
+    # which arguments eigen() rejects (ValueError), which sizes it asserts on, and the threshold rule itself, against the model's
+    # eigenValidate / signalSpace (the objects of theorems eigenValidate_rules, nsig_rules)
+    "valid": {"impl": impl_valid, "model": model_valid, "strict_errors": True, "rtol": 0, "atol": 0, "key": _key,
+              "tags": lambda p: ["valid:" + ("nsig" if p["nsig"] is not None else "-") + ("+thr" if p["thr"] is not None else "")]},
+    "thr": {"impl": impl_thr, "model": model_thr, "rtol": 0, "atol": 0, "key": _key, "tags": lambda p: ["thr"]},
 }
+NO_VARY = {"valid", "thr"}
 
 
 def _noisy(nrng, N, cplx):
@@ -236,6 +297,20 @@ KINDS["single"] = single.kind("C17")
 
 def gen(rng, nrng, tier):
     yield from single.gen("C17", nrng, tier)
+    for i in range(60 if tier == "quick" else 600):
+        P = int(nrng.integers(2, 9))
+        N = int(nrng.integers(P + 1, 3 * P + 4)) if i % 5 == 0 else int(nrng.integers(2 * P, 40))   # some sizes hit the assertion
+        x = _noisy(nrng, N, bool(i % 2))
+        yield ("valid", {"x": x, "P": P, "method": ["music", "ev", "music", "foo"][(i // 3) % 4] if i % 11 else "MUSIC",
+                         "nsig": [None, None, 1, P - 1, P, P + 2, -1, 0][int(nrng.integers(0, 8))],
+                         "thr": [None, None, 3.0, 1.0, 0.5, -2.0, 1e9][int(nrng.integers(0, 7))],
+                         "crit": ["aic", "mdl", "aic", "foo"][int(nrng.integers(0, 4))]})
+    for i in range(30 if tier == "quick" else 300):
+        n = int(nrng.integers(2, 9))
+        S = np.sort(nrng.integers(1, 40, n).astype(float))[::-1] / 4.0
+        if i % 4 == 0:
+            S[-1] = S[-2]                      # tied smallest singular values
+        yield ("thr", {"S": S, "thr": [1.0, 1.5, 2.0, 3.0, 100.0, 1.25][i % 6]})
     n = 50 if tier == "quick" else 700
     for i in range(n):
         cplx = bool(i % 2)
